@@ -19,12 +19,12 @@ STARS = [{'n': 'args', 'k': 'var', 'd': False, 'dv': 0, 'an': 0}, {'n': 'kwargs'
 STARS2 = [{'n': 'p', 'k': 'var', 'd': False, 'dv': 0, 'an': 0}, {'n': 'k', 'k': 'vkw', 'd': False, 'dv': 0, 'an': 0}]
 
 
-def law_gen(u, U, triples, seed):
+def law_gen(u, U, triples, seed, unary=True):
     from sigtools import signatures
 
     def gen(shard, nshards):
         bare = [signatures.signature(absig.make_func(STARS, name='f9')), signatures.signature(absig.make_func(STARS2, name='f9'))]
-        for i in range(len(U)):
+        for i in range(len(U) if unary else 0):
             if i % nshards != shard:
                 continue
             s = u.sig(i, 1)
@@ -88,7 +88,13 @@ def run(check, tier, seed, scratch):
     check.cov['model_counterexamples'] = len(cex)
     up, u3, cu = Universe(UP), Universe(U3), algebra.CaseUniverse()
     triples = rc_triples(U3, 6000 if quick else 150000, seed)
-    gen = alggen.chain(alggen.merge_pairs(up, UP), law_gen(u3, U3, triples, seed), alggen.cex_events(cu, 'merge', cex))
+    # EVERY role-consistent triple over one name (the n-ary fold keeps state between its steps: the same name met a second and a third time)
+    U1 = tlc.export_universe(scratch, 'a', ['args'], ['kwargs'], 1)
+    all1 = [(i, j, k) for i in range(len(U1)) for j in range(len(U1)) for k in range(len(U1)) if role_consistent([U1[i], U1[j], U1[k]])]
+    u1 = Universe(U1)
+    check.cov['one_name_triples'] = len(all1)
+    gen = alggen.chain(alggen.merge_pairs(up, UP), law_gen(u3, U3, triples, seed), law_gen(u1, U1, all1, seed, unary=False), alggen.merge_tuples(u1, U1, all1, tag='merge3-one-name'),
+                       alggen.cex_events(cu, 'merge', cex))
     run_trace_leg(check, scratch, 'merge+laws', gen, WANT)
     check.cov['exhaustive'] = True
     check.cov['rule'] = ('every ordered pair of the %d-signature universe (exactness, raise-iff; complete call set); the unary, '
